@@ -47,6 +47,9 @@ pub assume_specification[ HeaderMap::<HeaderValue>::new ]() -> (r: HeaderMap<Hea
     ensures hm_view(&r) == Seq::<(Seq<u8>, HeaderValue)>::empty();
 pub assume_specification<T>[ HeaderMap::<T>::len ](h: &HeaderMap<T>) -> (r: usize)
     ensures r == hm_view(h).len();
+/// `contains_key(name)`: some field line has that name (assumed; `http` crate)
+pub assume_specification<T, K: http::header::AsHeaderName>[ HeaderMap::<T>::contains_key::<K> ](h: &HeaderMap<T>, k: K) -> (r: bool)
+    ensures r == (field_vals(h, key_view(k)).len() > 0);
 /// number of distinct names: never more than the number of field lines, 0 only for the empty map (assumed; `http` crate)
 pub assume_specification<T>[ HeaderMap::<T>::keys_len ](h: &HeaderMap<T>) -> (r: usize)
     ensures r <= hm_view(h).len(), (r == 0) == (hm_view(h).len() == 0);
